@@ -272,7 +272,7 @@ func genC11Case(t *rapid.T) *C11Case {
 						}
 					}
 				}
-				if tag := rapid.SampledFrom(multiTags).Draw(t, "tag"); tag != "valid" {
+				if tag := rapid.SampledFrom(callTags).Draw(t, "tag"); tag != "valid" {
 					s.Tag = tag
 				}
 				s.pickEntry(rapid.IntRange(0, 7).Draw(t, "entry"))
